@@ -111,17 +111,17 @@ def gen_instance(rng, graph=None, max_comps=6, max_agents=4, tiny=False, asymmet
         c = rng.choice(case["constraints"])
         v_ = rng.choice(c["scope"])
         hints["host_with"][c["name"]] = [v_]
-        if hint_bias and rng.random() < 0.6 and not any(v_ in ns for ns in hints["must_host"].values()):
+        if hint_bias and rng.random() < 0.85 and not any(v_ in ns for ns in hints["must_host"].values()):
             # ... and that variable is itself pinned on an agent by a must_host hint (an actuator variable with its model);
             # the model is heavier than the variable and the agent's capacity is just below / at / above what both need
             pinned_on = rng.choice(agents)
             hints["must_host"].setdefault(pinned_on, []).append(v_)
-            if rng.random() < 0.7:
+            if rng.random() < 0.85:
                 fp[c["name"]], fp[v_] = rng.choice([3, 5]), 1
                 need = sum(fp[n] for n in hints["must_host"][pinned_on]) + fp[c["name"]]
                 for d_ in adefs:
                     if d_["name"] == pinned_on:
-                        d_["capacity"] = max(0, need + rng.choice([-2, -1, 0, 0, 1]))
+                        d_["capacity"] = max(0, need + rng.choice([-2, -1, -1, 0, 1]))
     elif rng.random() < 0.25 and len(names) >= 2:
         x, y = rng.sample(names, 2)
         hints["host_with"][x] = [y]
